@@ -376,6 +376,16 @@ func genFloatCase(rt *rapid.T) tcase {
 	}
 	c.side = "ordinary"
 	switch {
+	case !isF32 && math.IsInf(f, 0):
+		// Numeric text beyond the DOUBLE range. MySQL rejects it; this engine keeps IEEE
+		// infinities in DOUBLE columns on purpose ("diverges from MySQL ... to be
+		// Postgres-compatible", enginetest/queries/queries.go, rowexec/insert_test.go "inserting
+		// Infinity into float is okay"), so the overflow to +-Inf is the documented rounding of
+		// its DOUBLE and not a silent change: accepted are a rejection, the infinity, or the
+		// clamped +-MaxFloat64.
+		c.rep, c.why = repRounded, "beyond the DOUBLE range: rejected, or the IEEE infinity the engine keeps by design"
+		c.boundary, c.side = true, "beyond-max"
+		c.want = []string{fNorm64(f), fNorm64(math.Copysign(math.MaxFloat64, f))}
 	case math.IsInf(f, 0) || math.Abs(f) > maxv*(1+1e-7):
 		c.rep, c.why = repNot, "out of range"
 		c.boundary, c.side = true, "beyond-max"
